@@ -264,21 +264,30 @@ def error_propagates(prov, fn, cb):
     return ef["returned_directly"]
 
 
-def value_cases(prov, fn, l, _depth=0):
-    """the ways local `l` gets its value: [(origin, dominating conditions of the defining site, (block, index))], looking
-    through plain moves (`x = move tmp` where tmp is assigned in several branches - the shape a spliced helper or a
-    block expression leaves behind)"""
+def value_cases(prov, fn, l, _depth=0, _outer=()):
+    """the ways local `l` gets its value: [(origin, conditions under which that definition is the one used, (block, index))],
+    looking through plain moves (`x = move tmp` where tmp is assigned in several branches - the shape a spliced helper, a
+    desugared combinator or a block expression leaves behind); the conditions are those dominating the defining site and
+    every move on the way"""
     out = []
     for kind, db, di, x in prov.defs(fn).get(l, []):
         if kind == "setdiscr" or x["dst"]["p"]:
             continue
+        here = tuple(dominating_conditions(prov, fn, db))
         if kind == "assign" and x["rv"]["k"] == "use" and x["rv"]["op"].get("k") in ("copy", "move") and not x["rv"]["op"]["place"]["p"] and _depth < 6:
             m = x["rv"]["op"]["place"]["l"]
             if m > fn.arg_count and m != l and prov.defs(fn).get(m):
-                out.extend(value_cases(prov, fn, m, _depth + 1))
+                out.extend(value_cases(prov, fn, m, _depth + 1, _outer + here))
                 continue
         val = prov.rvalue(fn, x["rv"], (db, di)) if kind == "assign" else prov.call_origin(fn, x, db)
-        out.append((val, dominating_conditions(prov, fn, db), (db, di)))
+        conds = []
+        seen = set()
+        for c in _outer + here:
+            r = repr(c)
+            if r not in seen:
+                seen.add(r)
+                conds.append(c)
+        out.append((val, conds, (db, di)))
     return out
 
 
